@@ -37,7 +37,7 @@ def render(r, L):
         elif tok in ("<SEP>", "<BGSEP>"):
             sep = L["sep"] if tok == "<SEP>" else L["bg"]
             if L["comment"]:
-                sep = " # c%d\n" % ci; ci += 1
+                sep = ("\n# c%d\n" if L["name"].startswith("own") else " # c%d\n") % ci; ci += 1
             if pending:
                 if "\n" not in sep:
                     sep = "\n"
